@@ -72,7 +72,9 @@ func (d *defineBuiltinMethod) defineBuiltinInstanceMethod(
 	methodT.DefinedClass = d.targetClass
 	methodT.IsStatic = false
 
-	existingT := base.GetMethodT(frame, d.targetClass, method, false)
+	// an overload is a second declaration on the same class: a method that is
+	// only inherited (the parent was loaded first) must not capture it
+	existingT := base.GetOwnMethodT(frame, d.targetClass, method, false)
 
 	if existingT != nil {
 		existingT.Overloads = append(existingT.Overloads, *methodT)
@@ -115,7 +117,7 @@ func (d *defineBuiltinMethod) defineBuiltinStaticMethod(
 		base.CalculateFrame(frame, d.targetClass) + "::" + method,
 	)
 
-	existingT := base.GetClassMethodT(frame, d.targetClass, method, false)
+	existingT := base.GetOwnClassMethodT(frame, d.targetClass, method, false)
 
 	if existingT != nil {
 		existingT.Overloads = append(existingT.Overloads, *methodT)
